@@ -5,11 +5,12 @@ import "fmt"
 // Instance is one accepted subscription: a SubscriptionLogger.Subscribe call
 // observed inside the handle window of a subscribe message.
 type Instance struct {
-	ID     string `json:"id"`
-	Tag    string `json:"tag"`
-	Query  string `json:"query"`
-	MsgK   int    `json:"msgK"`
-	SubSeq int    `json:"subSeq"`
+	ID     string                 `json:"id"`
+	Tag    string                 `json:"tag"`
+	Query  string                 `json:"query"`
+	Vars   map[string]interface{} `json:"vars,omitempty"`
+	MsgK   int                    `json:"msgK"`
+	SubSeq int                    `json:"subSeq"`
 
 	EndSeq      int    `json:"endSeq"`  // -1: still live at the end of the log
 	EndKind     string `json:"endKind"` // log-unsub | unsub-processed | serve-return
@@ -205,7 +206,7 @@ func Analyze(events []Event, meta []MsgMeta, max int) *Analysis {
 			if curK < 0 || m.Type != "subscribe" || m.ID != e.ID {
 				a.anomaly("subscribe-log-outside-window", e.Seq, e.ID, nil, "logger Subscribe outside the handle window of a subscribe message with that id")
 			} else {
-				inst.Tag, inst.Query = m.Tag, m.Query
+				inst.Tag, inst.Query, inst.Vars = m.Tag, m.Query, m.Vars
 			}
 			if old := live[e.ID]; old != nil {
 				a.anomaly("second-subscribe-live", e.Seq, e.ID, old, "logger Subscribe for an id that is live")
